@@ -22,6 +22,9 @@ Model/LimitBid.vos Model/LimitBid.vok Model/LimitBid.required_vos: Model/LimitBi
 Model/Market.vo Model/Market.glob Model/Market.v.beautified Model/Market.required_vo: Model/Market.v Lib/Base.vo
 Model/Market.vio: Model/Market.v Lib/Base.vio
 Model/Market.vos Model/Market.vok Model/Market.required_vos: Model/Market.v Lib/Base.vos
+Proofs/EnglishProofs.vo Proofs/EnglishProofs.glob Proofs/EnglishProofs.v.beautified Proofs/EnglishProofs.required_vo: Proofs/EnglishProofs.v Lib/Base.vo Lib/DecArith.vo Lib/DecFacts.vo Lib/FLedger.vo Model/English.vo
+Proofs/EnglishProofs.vio: Proofs/EnglishProofs.v Lib/Base.vio Lib/DecArith.vio Lib/DecFacts.vio Lib/FLedger.vio Model/English.vio
+Proofs/EnglishProofs.vos Proofs/EnglishProofs.vok Proofs/EnglishProofs.required_vos: Proofs/EnglishProofs.v Lib/Base.vos Lib/DecArith.vos Lib/DecFacts.vos Lib/FLedger.vos Model/English.vos
 Proofs/MarketProofs.vo Proofs/MarketProofs.glob Proofs/MarketProofs.v.beautified Proofs/MarketProofs.required_vo: Proofs/MarketProofs.v Lib/Base.vo Model/Market.vo
 Proofs/MarketProofs.vio: Proofs/MarketProofs.v Lib/Base.vio Model/Market.vio
 Proofs/MarketProofs.vos Proofs/MarketProofs.vok Proofs/MarketProofs.required_vos: Proofs/MarketProofs.v Lib/Base.vos Model/Market.vos
